@@ -12,6 +12,7 @@ import (
 	"strings"
 	"sync"
 	"sync/atomic"
+	"time"
 
 	"github.com/kubeshark/base/pkg/api"
 
@@ -39,6 +40,8 @@ func main() {
 		emitMulti(os.Args[2:])
 	case "emit-fresh":
 		emitFresh(os.Args[2:])
+	case "emit-closed":
+		emitClosed(os.Args[2:])
 	default:
 		os.Exit(2)
 	}
@@ -319,6 +322,54 @@ func emitFresh(args []string) {
 		}
 	}
 	fmt.Printf("{\"trials\":%d,\"goroutines\":%d,\"bad\":%d,\"first_bad\":%q}\n", trials, g, bad, firstBad)
+}
+
+// emit-closed <trials> <goroutines> <emitsEach> <capacity>: the stream reports itself closed after the first item while
+// its halves still emit, the output channel is small and its consumer starts late: every emitted item must still arrive,
+// with the indices 0..N-1.
+func emitClosed(args []string) {
+	trials, g, per, capacity := atoi(args[0]), atoi(args[1]), atoi(args[2]), atoi(args[3])
+	bad, firstBad := 0, ""
+	for t := 0; t < trials; t++ {
+		stream := &mock.Stream{PcapId: "s"}
+		stats := &api.AppStats{}
+		ch := make(chan *api.OutputChannelItem, capacity)
+		em := &api.Emitting{AppStats: stats, Stream: stream, OutputChannel: ch}
+		var wg sync.WaitGroup
+		for i := 0; i < g; i++ {
+			wg.Add(1)
+			go func() {
+				defer wg.Done()
+				for k := 0; k < per; k++ {
+					em.Emit(&api.OutputChannelItem{})
+					atomic.StoreInt32(&stream.Closed, 1)
+				}
+			}()
+		}
+		seen := map[int64]int{}
+		n := 0
+		done := make(chan struct{})
+		go func() {
+			time.Sleep(time.Duration(t%3) * time.Millisecond) // a consumer that is late
+			for it := range ch {
+				seen[it.Index]++
+				n++
+			}
+			close(done)
+		}()
+		wg.Wait()
+		close(ch)
+		<-done
+		N := g * per
+		ok := n == N && len(seen) == N && int(stats.MatchedPairs) == N
+		if !ok {
+			bad++
+			if firstBad == "" {
+				firstBad = fmt.Sprintf("trial %d: emitted=%d delivered=%d distinct=%d matched=%d", t, N, n, len(seen), stats.MatchedPairs)
+			}
+		}
+	}
+	fmt.Printf("{\"trials\":%d,\"bad\":%d,\"first_bad\":%q}\n", trials, bad, firstBad)
 }
 
 // emit-multi <streams> <goroutinesPerStream> <emitsEach> <dumps>: several streams, each with its
